@@ -24,6 +24,8 @@ type Case struct {
 	Limit int            `json:"limit"`
 	Shape string         `json:"shape"`
 	Text  string         `json:"text"`
+	// WithTemporal configures an (empty) temporal store as well; the limit must still hold for plain facts.
+	WithTemporal bool `json:"withTemporal,omitempty"`
 }
 
 type verdict struct {
@@ -87,6 +89,29 @@ func check(run *stats.Run, f stats.Failer, c Case) verdict {
 		storeKind = "multiindexedarray"
 		run.Excluded("K08-hash-colliders")
 	}
+	if prog.HashKeyed(storeKind) && stats.Exclusion("K08-hash-colliders") && !strings.HasPrefix(c.Shape, "diverge-") {
+		// same exclusion as C01: a model with two same-predicate atoms of equal Atom.Hash() runs on the array store
+		pre := prog.Eval(c.Gen.Prog, extra, prog.Options{MaxFacts: len(extra) + len(c.Gen.Prog.Facts) + B + 1, MaxSteps: 3000000})
+		seen := map[string]map[uint64]bool{}
+		for _, fact := range pre.Model {
+			m := seen[fact.Pred]
+			if m == nil {
+				m = map[uint64]bool{}
+				seen[fact.Pred] = m
+			}
+			h := fact.ToAtom().Hash()
+			if m[h] {
+				storeKind = "multiindexedarray"
+				run.Excluded("K08-hash-colliders")
+				break
+			}
+			m[h] = true
+		}
+		if usesCollect(c.Gen.Prog) && prog.HashKeyed(storeKind) {
+			storeKind = "multiindexedarray" // the hash of a collected list depends on its run-dependent order
+			run.Excluded("K08-hash-colliders")
+		}
+	}
 	inner := prog.NewStore(storeKind)
 	for _, fact := range extra {
 		inner.Add(fact.ToAtom())
@@ -106,7 +131,11 @@ func check(run *stats.Run, f stats.Failer, c Case) verdict {
 				panicked = fmt.Sprint(r)
 			}
 		}()
-		evalErr = engine.EvalProgram(out.Info, store, engine.WithCreatedFactLimit(L))
+		opts := []engine.EvalOption{engine.WithCreatedFactLimit(L)}
+		if c.WithTemporal {
+			opts = append(opts, engine.WithTemporalStore(countingTemporal{TemporalFactStore: factstore.NewTemporalStore(), created: &created, bound: B}))
+		}
+		evalErr = engine.EvalProgram(out.Info, store, opts...)
 	}()
 	if panicked != "" {
 		run.Failf(f, "evaluation under a fact limit panicked: %s\nlimit %d\n%s", panicked, L, text)
@@ -142,7 +171,7 @@ func check(run *stats.Run, f stats.Failer, c Case) verdict {
 		}
 		var o prog.Outcome
 		prog.ReadStore(inner, &o)
-		missing, extraGot := prog.Diff(ref.Model, o.Facts)
+		missing, extraGot := prog.DiffListsAsSets(ref.Model, o.Facts, func(p string) bool { return strings.HasPrefix(p, "s") })
 		if len(missing) > 0 || len(extraGot) > 0 {
 			run.Failf(f, "evaluation returned without error under limit %d but the store is not the complete model.\nmissing: %v\nextra: %v\nprogram:\n%spre-loaded: %s",
 				L, missing, extraGot, text, atomsText(c.Gen.Extra))
@@ -163,8 +192,24 @@ func check(run *stats.Run, f stats.Failer, c Case) verdict {
 		v.labels = append(v.labels, "model<=limit")
 	}
 	v.labels = append(v.labels, "shape:"+c.Shape, "store:"+storeKind)
+	if c.WithTemporal {
+		v.labels = append(v.labels, "with-temporal-store")
+	}
 	v.nontrivial = diverges || derived > 0
 	return v
+}
+
+func usesCollect(p prog.Program) bool {
+	for _, r := range p.Rules {
+		if r.Do != nil {
+			for _, l := range r.Do.Lets {
+				if l.Fn.Fn == "fn:collect_distinct" {
+					return true
+				}
+			}
+		}
+	}
+	return false
 }
 
 func atomsText(as []prog.Atom) string {
@@ -196,7 +241,7 @@ func divergent(t *rapid.T) (prog.Generated, string) {
 		}
 	}
 	base := prog.Rule{Head: prog.Atom{Pred: "i0", Args: []prog.Term{v("X")}}, Body: []prog.Lit{prog.PosLit(prog.Atom{Pred: "e0", Args: []prog.Term{v("X")}})}}
-	shape := rapid.SampledFrom([]string{"diverge-plus", "diverge-mult", "diverge-mutual", "diverge-let", "diverge-list", "diverge-pair", "finite-counter", "finite-product", "diverge-late-stratum"}).Draw(t, "shape")
+	shape := rapid.SampledFrom([]string{"diverge-plus", "diverge-mult", "diverge-mutual", "diverge-let", "diverge-list", "diverge-pair", "finite-counter", "finite-product", "diverge-late-stratum", "finite-groups", "finite-groups"}).Draw(t, "shape")
 	step := func(head, body string, fn string, k int64) prog.Rule {
 		return prog.Rule{Head: prog.Atom{Pred: head, Args: []prog.Term{v("Y")}},
 			Body: []prog.Lit{prog.PosLit(prog.Atom{Pred: body, Args: []prog.Term{v("X")}}), prog.EqLit(v("Y"), prog.Fn(fn, v("X"), prog.Num(k)))}}
@@ -233,6 +278,29 @@ func divergent(t *rapid.T) (prog.Generated, string) {
 		c := step("i0", "i0", "fn:plus", 1)
 		c.Body = append(c.Body, prog.CmpLit("<", v("X"), prog.Num(rapid.Int64Range(2, 9).Draw(t, "side"))))
 		g.Prog.Rules = []prog.Rule{base, c, r}
+	case "finite-groups":
+		// an aggregation with many groups: more results than a small limit allows
+		m := rapid.IntRange(3, 30).Draw(t, "groups")
+		g.Prog.Decls = append(g.Prog.Decls, prog.Decl{Pred: "e1", Arity: 2})
+		for k := 0; k < m; k++ {
+			reps := rapid.IntRange(1, 2).Draw(t, "reps")
+			for j := 0; j < reps; j++ {
+				g.Extra = append(g.Extra, prog.Atom{Pred: "e1", Args: []prog.Term{prog.Num(int64(k)), prog.Num(int64(j))}})
+			}
+		}
+		agg := prog.Rule{Head: prog.Atom{Pred: "s0", Args: []prog.Term{v("K"), v("N")}},
+			Body: []prog.Lit{prog.PosLit(prog.Atom{Pred: "e1", Args: []prog.Term{v("K"), v("V")}})},
+			Do:   &prog.Do{Keys: []string{"K"}, Lets: []prog.LetStmt{{Var: "N", Fn: prog.Fn(rapid.SampledFrom([]string{"fn:count", "fn:sum", "fn:max"}).Draw(t, "red"))}}}}
+		if agg.Do.Lets[0].Fn.Fn != "fn:count" {
+			agg.Do.Lets[0].Fn.Args = []prog.Term{v("V")}
+		}
+		if rapid.Bool().Draw(t, "multiAtom") {
+			agg.Body = append(agg.Body, prog.PosLit(prog.Atom{Pred: "e0", Args: []prog.Term{v("Z")}}))
+		}
+		g.Prog.Rules = []prog.Rule{base, agg}
+		if rapid.Bool().Draw(t, "consumer") {
+			g.Prog.Rules = append(g.Prog.Rules, prog.Rule{Head: prog.Atom{Pred: "i1", Args: []prog.Term{v("K")}}, Body: []prog.Lit{prog.PosLit(prog.Atom{Pred: "s0", Args: []prog.Term{v("K"), v("N")}})}})
+		}
 	case "diverge-late-stratum":
 		// a finite first stratum, divergence only in a later one (after a negation)
 		neg := prog.Rule{Head: prog.Atom{Pred: "i1", Args: []prog.Term{v("X")}}, Body: []prog.Lit{prog.PosLit(prog.Atom{Pred: "i0", Args: []prog.Term{v("X")}}), prog.NegLit(prog.Atom{Pred: "e0", Args: []prog.Term{prog.Num(99)}})}}
@@ -243,13 +311,17 @@ func divergent(t *rapid.T) (prog.Generated, string) {
 
 func genCase(t *rapid.T) Case {
 	var c Case
-	if rapid.IntRange(0, 9).Draw(t, "ordinary") < 4 {
+	if k := rapid.IntRange(0, 9).Draw(t, "ordinary"); k < 3 {
 		c.Gen = prog.Gen(prog.AllFeatures).Draw(t, "prog")
 		c.Shape = "ordinary"
+	} else if k == 3 {
+		c.Gen = prog.GenAgg().Draw(t, "aggProg")
+		c.Shape = "ordinary-agg"
 	} else {
 		c.Gen, c.Shape = divergent(t)
 	}
 	c.Store = rapid.SampledFrom(prog.StoreKinds).Draw(t, "store")
+	c.WithTemporal = rapid.IntRange(0, 2).Draw(t, "withTemporal") == 0
 	c.Limit = rapid.SampledFrom([]int{1, 1, 2, 3, 5, 8, 13, 21}).Draw(t, "limit")
 	c.Text = c.Gen.Prog.Source()
 	return c
